@@ -54,6 +54,8 @@ type pcase struct {
 	errText []string // texts (one for plain kinds, the parts' own texts for multi)
 	partS   []bool   // multi: which part wraps the sentinel
 	opubOk  bool
+	ctxState  string     // kind pqs: live | cin | dl | ch (context of the message when the handler fails)
+	preSettle string     // kind pqs: - | ack | nack (the handler settles the message itself before it fails)
 	appWhere string      // kind pqc: "in" (context carried in with the message) | "h" (set by the handler before it fails)
 	appKV    [][2]string // application values stored in the message context under plain STRING keys
 	seq     string // kind pqf: the answers ("1"/"0") the scripted stateful filter still has when this message arrives
@@ -183,6 +185,10 @@ func (c *pcase) req() string {
 	tail := ""
 	if c.appWhere != "" {
 		tail = " " + c.appWhere + ":" + pairs(c.appKV)
+	}
+	if c.ctxState != "" {
+		kind = "pqs"
+		tail = " " + c.ctxState + ":" + c.preSettle
 	}
 	return strings.Join([]string{kind, c.mode, wh.HexS(c.ptopic), filter, po, wh.HexS(c.ctxT), wh.HexS(c.ctxH), wh.HexS(c.ctxS),
 		wh.HexS(c.uuid), wh.Hex(c.payload), wh.Meta(c.meta), pairs(c.sets), strconv.Itoa(c.nouts), e, op}, " ") + tail
@@ -373,6 +379,16 @@ func (c *pcase) message() *message.Message {
 	if c.appWhere == "in" {
 		m.SetContext(appCtx(context.Background(), c.appKV))
 	}
+	switch c.ctxState {
+	case "cin": // the context was cancelled before the message arrived (subscription closing, InstantAck on GoChannel …)
+		ctx, cancel := context.WithCancel(context.Background())
+		cancel()
+		m.SetContext(ctx)
+	case "dl": // a deadline that has passed (a Timeout in front of the poison queue)
+		ctx, cancel := context.WithDeadline(context.Background(), time.Unix(1, 0))
+		_ = cancel
+		m.SetContext(ctx)
+	}
 	return m
 }
 
@@ -405,6 +421,17 @@ func (c *pcase) handlerFunc(hi *herrInfo) message.HandlerFunc {
 		}
 		if c.appWhere == "h" {
 			m.SetContext(appCtx(m.Context(), c.appKV))
+		}
+		if c.ctxState == "ch" {
+			ctx, cancel := context.WithCancel(m.Context())
+			cancel()
+			m.SetContext(ctx)
+		}
+		switch c.preSettle {
+		case "ack":
+			m.Ack()
+		case "nack":
+			m.Nack()
 		}
 		return outMsgs(c.nouts), hi.err
 	}
@@ -553,6 +580,7 @@ type script struct {
 	seen    bool
 	seenErr error
 	seenPanic string
+	returned chan struct{} // closed when the middleware chain has returned (or panicked) for this message
 }
 
 const settleTimeout = 30 * time.Second
@@ -593,6 +621,9 @@ func newRT(protos []*pcase, handlerLevel bool) (*rtEnv, error) {
 	observer := func(h message.HandlerFunc) message.HandlerFunc {
 		return func(m *message.Message) ([]*message.Message, error) {
 			defer func() {
+				if sc := e.script(m); sc != nil {
+					defer close(sc.returned)
+				}
 				if r := recover(); r != nil { // note the panic that leaves the poison middleware and let it go on to the Router
 					if sc := e.script(m); sc != nil {
 						e.mu.Lock()
@@ -648,7 +679,7 @@ func (e *rtEnv) close() {
 }
 
 func (e *rtEnv) register(c *pcase, m *message.Message) *script {
-	sc := &script{c: c, hi: c.newHerr()}
+	sc := &script{c: c, hi: c.newHerr(), returned: make(chan struct{})}
 	e.mu.Lock()
 	e.scripts[m] = sc
 	e.mu.Unlock()
@@ -719,6 +750,10 @@ func (e *rtEnv) run(c *pcase, h int) string {
 		return "P0 O:- E:other:" + wh.HexS("router did not take the message") + " A:- S:timeout"
 	}
 	settle := waitSettle(msg)
+	if c.preSettle == "ack" || c.preSettle == "nack" {
+		// settled by the handler: the chain may still be running, wait until it has returned
+		waitCh(sc.returned)
+	}
 	obs := e.ppub.render() + " O:" + outsOf(e.opub.recsFrom(0)) + " E:" + e.errSeen(sc, perr) + " A:" + wh.Meta(msg.Metadata) + " S:" + settle
 	if c.pqf {
 		obs += " F:" + strconv.Itoa(e.ctl.n()-before)
@@ -1027,6 +1062,42 @@ func genAppCtxAndPanic(out *wh.Out, rng *wh.Rng, n int) {
 			count(out, c, obs)
 		}
 		env.close()
+	}
+}
+
+// genState: the handler fails on a message whose context is already over, and/or which it has settled itself
+func genState(out *wh.Out, rng *wh.Rng, reps int) {
+	kinds := []string{"new", "sentinel", "multi", "nil", "canceled", "wrapdeadline"}
+	states := [][2]string{{"cin", "-"}, {"dl", "-"}, {"ch", "-"}, {"live", "ack"}, {"live", "nack"}, {"cin", "ack"}, {"ch", "nack"}, {"live", "-"}}
+	mk := func(mode string, i int) *pcase {
+		c := rndCase(rng, mode, kinds[rng.Intn(len(kinds))])
+		c.ctxState, c.preSettle = states[i%len(states)][0], states[i%len(states)][1]
+		out.Count("state.ctx." + c.ctxState)
+		out.Count("state.settled_by_handler." + c.preSettle)
+		return c
+	}
+	for rep := 0; rep < reps; rep++ {
+		for i := 0; i < 3*len(states); i++ {
+			c := mk("sa", i)
+			c.ptopic = "poison-" + rndStr(rng, 3)
+			c.fillFilter(rng, []string{"all", "fall", "is", "none"}[rng.Intn(4)])
+			obs := runSA(c)
+			out.Case(c.req(), obs)
+			count(out, c, obs)
+		}
+		for _, level := range []bool{false, true} {
+			proto := &pcase{ptopic: "poison-" + rndStr(rng, 3), filter: []string{"all", "fall"}[rng.Intn(2)], ctxT: "in-st", ctxH: "h-st", ctxS: "sub.st"}
+			env := rtSetup(out, []*pcase{proto}, level)
+			for i := 0; i < 2*len(states); i++ {
+				c := mk("rt", i)
+				c.ptopic, c.filter, c.ctxT, c.ctxH, c.ctxS = proto.ptopic, proto.filter, proto.ctxT, proto.ctxH, proto.ctxS
+				c.nouts = 0 // (the Router publishes outputs after the chain returned: not awaited for messages the handler settled)
+				obs := env.run(c, 0)
+				out.Case(c.req(), obs)
+				count(out, c, obs)
+			}
+			env.close()
+		}
 	}
 }
 
@@ -1589,9 +1660,14 @@ func parseCase(f []string) *pcase {
 	if strings.HasPrefix(f[3], "panic:") {
 		c.pubFail = "p" + unhex(f[3][6:])
 	}
-	if len(f) > 14 { // kind pqc
+	if len(f) > 14 { // kind pqc / pqs
 		w := strings.SplitN(f[14], ":", 2)
-		c.appWhere, c.appKV = w[0], parsePairs(w[1])
+		switch w[0] {
+		case "in", "h":
+			c.appWhere, c.appKV = w[0], parsePairs(w[1])
+		default:
+			c.ctxState, c.preSettle = w[0], w[1]
+		}
 	}
 	if f[8] != "-" {
 		c.payload = []byte(unhex(f[8]))
@@ -1641,7 +1717,7 @@ func replay(out *wh.Out, line string) {
 			o = "err"
 		}
 		out.Case(line, o)
-	case (len(f) == 15 && (f[0] == "pq" || f[0] == "pqf")) || (len(f) == 16 && f[0] == "pqc"):
+	case (len(f) == 15 && (f[0] == "pq" || f[0] == "pqf")) || (len(f) == 16 && (f[0] == "pqc" || f[0] == "pqs")):
 		c := parseCase(f[1:])
 		if c.mode == "sa" {
 			out.Case(c.req(), runSA(c))
@@ -1689,6 +1765,7 @@ func main() {
 	}
 	genLong(out, rng, nLong)
 	genAppCtxAndPanic(out, rng, nLong)
+	genState(out, rng, nLong/15)
 	genSeq(out, rng, 12*reps)
 	genPQ2(out, rng, 2*reps)
 }
